@@ -2,11 +2,17 @@
 Tie C: the implementation supplies its own joint prior (K, m on [X; X*]) and train noise S as
 exact rationals together with the targets and their NaN pattern; the Coq model
 (Models/C16_missing.v, vm_compute over Qc) computes the posterior of the data set with the NaN
-observations DELETED (C01's closed form on the gathered sub-problem), the mean/covariance "as
-coded", and the Gaussian log-density terms.  The implementation is run under both policies, both
-orders of switching on one model object, fast_pred_var on/off, and compared with deletion."""
+observations DELETED (C01's closed form on the gathered sub-problem: run_deletion) for EVERY case;
+for a subset (every pattern on N <= 3, a sample above) also the mean / covariance / MLL of the model
+of the CURRENT code under 'mask' (run_missing: _mean_cache + exact_predictive_mean +
+exact_predictive_covar with its has_missing dispatch) and under 'fill' + policy histories (run_fill),
+which the theorems prove equal to deletion (re-checked here on the executable model), and the OLD
+unmasked covariance formula (run_coded_cov; only to label a regression of the covariance fix and to
+decide which cases are non-trivial).  The implementation is run under both policies, both orders of
+switching on one model object, fast_pred_var on/off, and compared with deletion."""
 import itertools
 import json
+import os
 import random
 import warnings
 
@@ -25,9 +31,11 @@ LEVEL_NOTE = ("theorems are about the Gallina model of the mask/fill code paths;
 IMPORTS = ("From Coq Require Import List ZArith QArith Qcanon.\n"
            "From GPV Require Import Base.LinAlg Base.Exec Base.Expr Models.C01_posterior Models.C16_missing.")
 RUN_DEF = "Definition run := run_missing."
+RUN_DEF_D = "Definition run := run_deletion."
 RUN_DEF_F = "Definition run := run_fill."
 RUN_DEF_C = "Definition run := run_coded_cov."
 RUN_DEF_G = "Definition run := run_gauss_terms."
+TAGSFX = os.environ.get("VERIF_TAG", "")    # development aid: keeps the scratch directories of concurrent runs apart
 FILL = -999.0
 NAN = float("nan")
 TOL = 1e-8
@@ -268,6 +276,17 @@ def decode(r, tt):
     return d
 
 
+def decode_del(r, tt):
+    rd = C.Reader(r)
+    if rd.int() != 1:
+        return None
+    d = dict(k=rd.int())
+    d["del_mean"] = rd.qs(tt); d["del_cov"] = rd.qmat(tt, tt)
+    d["logprob"] = float(rd.expr())
+    assert rd.done()
+    return d
+
+
 def decode_fill(r, tt):
     rd = C.Reader(r)
     if rd.int() != 1:
@@ -311,7 +330,7 @@ def run_coq(tag, run_def, terms, costs, bins=16):
     flat, size, where = balanced(terms, costs, bins)
     if not flat:
         return []
-    res = C.coq_run_cases(tag, IMPORTS, run_def, flat, shard=size)
+    res = C.coq_run_cases(tag + TAGSFX, IMPORTS, run_def, flat, shard=size)
     return [res[w] for w in where]
 
 
@@ -424,7 +443,10 @@ def check_mll(out, ds, pattern, models):
 def model_self_check(out, ds, pattern, m, b):
     """the theorems say these coincide; a disagreement here means the build is inconsistent"""
     desc = dict(ds=ds, pattern=pattern, b=b)
-    bad = m["mask_mean"] != m["del_mean"] or m["mask_cov"] != m["del_cov"]
+    a = m.get("ascoded")
+    bad = a is not None and (a["mask_mean"] != m["del_mean"] or a["mask_cov"] != m["del_cov"]
+                             or a["del_mean"] != m["del_mean"] or a["del_cov"] != m["del_cov"]
+                             or abs(a["logprob"] - m["logprob"]) > 1e-12 * (1 + abs(m["logprob"])))
     f = m.get("fillrun")
     if f is not None:
         bad = bad or f["fill_mean"] != m["del_mean"] or f["fill_cov"] != m["del_cov"] \
@@ -568,48 +590,55 @@ def needed(ds, pats):
     return sorted(need)
 
 
-def run_all_models(tag, work, rng, fill_budget):
-    """work: list of (ds, pats).  Returns per work item dict[(b, pattern)] -> decoded model with
-    'coded_cov' and (for a subset: every pattern on N <= 4, a sample above) 'fillrun' attached."""
-    t_m, c_m, t_f, c_f, t_c, c_c, idx = [], [], [], [], [], [], []
+def run_all_models(tag, work, rng, budget):
+    """work: list of (ds, pats).  Returns per work item dict[(b, pattern)] -> decoded deletion model
+    (the specification: run_deletion) with 'coded_cov' (the OLD unmasked formula, for labelling) and - for a
+    subset: every pattern on N <= 3, `budget` sampled patterns per larger data set - 'ascoded' (run_missing:
+    the mean / covariance / MLL of the CURRENT code's model under 'mask') and 'fillrun' (run_fill: the
+    same under 'fill' and after policy histories) attached.  The theorems say those coincide with
+    deletion; the subset re-checks that on the executable model."""
+    t_d, c_d, t_m, c_m, t_f, c_f, t_c, c_c, idx = [], [], [], [], [], [], [], [], []
     for ds, pats in work:
         N, tt = ds["N"], ds["t"] * ds["T"]
         priors, yb = impl_prior(ds), ybatch(ds)
         keys = needed(ds, pats)
-        big = [k for k in keys if N > 4]
-        chosen = set(k for k in keys if N <= 4) | set(rng.sample(big, min(len(big), fill_budget)))
-        ent = dict(keys=keys, m0=len(t_m), f={}, c0=len(t_c))
+        big = [k for k in keys if N > 3]
+        chosen = set(k for k in keys if N <= 3) | set(rng.sample(big, min(len(big), budget)))
+        ent = dict(keys=keys, d0=len(t_d), f={}, c0=len(t_c))
         for b, p in keys:
             KJ, mu, S = priors[b]
             y = [NAN if miss else v for v, miss in zip(yb[b], p)]
             k = N - sum(p)
-            t_m.append(coq_case(N, tt, KJ, mu, S, y)); c_m.append(k ** 4 + 1)
+            t_d.append(coq_case(N, tt, KJ, mu, S, y)); c_d.append(k ** 4 + 1)
             if (b, p) in chosen:
                 ent["f"][(b, p)] = len(t_f)
+                t_m.append(coq_case(N, tt, KJ, mu, S, y)); c_m.append(k ** 4 + 1)
                 t_f.append(coq_case_fill(N, tt, KJ, mu, S, y)); c_f.append(k ** 4 + N ** 3 + 1)
         for b in range(ds["B"] or 1):
             KJ, mu, S = priors[b]
             t_c.append(coq_case_coded(N, tt, KJ, S)); c_c.append(N ** 4 + 1)
         idx.append(ent)
-    # one coqc batch: the three run functions go to separate files but are launched together
+    # the deletion batch first (16 shards), then the three small batches together
     from concurrent.futures import ThreadPoolExecutor
-    r_m = run_coq(tag, RUN_DEF, t_m, c_m)
-    with ThreadPoolExecutor(2) as ex:
-        ff = ex.submit(run_coq, tag + "f", RUN_DEF_F, t_f, c_f, 10)
-        fc = ex.submit(run_coq, tag + "c", RUN_DEF_C, t_c, c_c, 6)
-        r_f, r_c = ff.result(), fc.result()
+    r_d = run_coq(tag, RUN_DEF_D, t_d, c_d)
+    with ThreadPoolExecutor(3) as ex:
+        fm = ex.submit(run_coq, tag + "m", RUN_DEF, t_m, c_m, 8)
+        ff = ex.submit(run_coq, tag + "f", RUN_DEF_F, t_f, c_f, 8)
+        fc = ex.submit(run_coq, tag + "c", RUN_DEF_C, t_c, c_c, 4)
+        r_m, r_f, r_c = fm.result(), ff.result(), fc.result()
     outl = []
     for (ds, pats), ent in zip(work, idx):
         tt = ds["t"] * ds["T"]
         dec = {}
         for j, key in enumerate(ent["keys"]):
-            d = decode(r_m[ent["m0"] + j], tt)
+            d = decode_del(r_d[ent["d0"] + j], tt)
             coded = decode_coded(r_c[ent["c0"] + key[0]], tt)
             if d is not None and coded is not None:
                 d["coded_cov"] = coded
                 if key in ent["f"]:
+                    d["ascoded"] = decode(r_m[ent["f"][key]], tt)
                     d["fillrun"] = decode_fill(r_f[ent["f"][key]], tt)
-                    if d["fillrun"] is None:
+                    if d["fillrun"] is None or d["ascoded"] is None:
                         d = None
             else:
                 d = None
@@ -626,7 +655,8 @@ def run(out, ctx):
     out.rule = ("per data set (families gaussian / fixed-noise / with priors / multitask T=2 / batch B=2; n up to %d "
                 "train points) ALL NaN patterns on the flattened targets except all-missing (batch: pairs of patterns, "
                 "capped); each under policies mask/fill, every step of the histories %s on one model object, "
-                "fast_pred_var off/on; non-trivial = at least one missing value and the deletion covariance differs "
+                "fast_pred_var off/on; every output is compared with the Coq deletion posterior (exact rationals) of the "
+                "same kernel matrices; non-trivial = at least one missing value and the deletion covariance differs "
                 "from the no-mask covariance by > 1e-6" % (5 if tier == "quick" else 6, ["/".join(h) for h in HISTORIES]))
     out.extra["tolerances"] = {"dense": TOL, "fast_pred_var (full-rank Lanczos)": TOL_FPV, "gaussian terms": 1e-9}
     work, exhaustive = [], True
@@ -634,7 +664,7 @@ def run(out, ctx):
         pats, ex = patterns_for(ds, rng, tier)
         exhaustive = exhaustive and ex
         work.append((ds, pats))
-    decs = run_all_models("C16", work, rng, 4 if tier == "quick" else 12)
+    decs = run_all_models("C16", work, rng, 2 if tier == "quick" else 12)
     for (ds, pats), dec in zip(work, decs):
         tt = ds["t"] * ds["T"]
         for pattern in pats:
@@ -663,7 +693,7 @@ def run(out, ctx):
     out.exhaustive = exhaustive
     # Gaussian likelihood terms
     gc = gauss_cases(rng, tier)
-    gres = C.coq_run_cases("C16g", IMPORTS, RUN_DEF_G, [gauss_coq_case(c) for c in gc], shard=max(1, (len(gc) + 15) // 16))
+    gres = C.coq_run_cases("C16g" + TAGSFX, IMPORTS, RUN_DEF_G, [gauss_coq_case(c) for c in gc], shard=max(1, (len(gc) + 15) // 16))
     for c, r in zip(gc, gres):
         out.case(dict(kind="gauss-terms", n=c["n"], T=c["T"], pattern=c["pattern"]), sum(c["pattern"]) > 0,
                  label="gauss-terms T=%d" % c["T"])
